@@ -13,6 +13,7 @@ DimSets(D) == IF D = 2 THEN {<<>>, <<0>>, <<1>>} ELSE {<<>>, <<0, 2>>}
 Margins(D) == IF D = 2 THEN {<<<<1, 0>>, <<2, 1>>>>, <<<<-2, 1>>, <<0, -1>>>>, <<<<1, 1>>, <<1, 1>>>>}
               ELSE {<<<<1, 0, 1>>, <<2, 1, 0>>>>, <<<<-1, 2, 0>>, <<0, -2, 1>>>>}
 Rois(D) == IF D = 2 THEN {<<<<1, 1>>, <<3, 2>>>>, <<<<-1, 0>>, <<4, 6>>>>} ELSE {<<<<1, 2, 0>>, <<2, 3, 2>>>>, <<<<0, -1, 1>>, <<5, 4, 3>>>>}
+ConvReach(D) == IF D = 2 THEN {<<1, 1>>, <<2, 1>>, <<0, 1>>} ELSE {<<1, 1, 1>>, <<1, 2, 0>>}
 IOpsOf(D) ==
     {[op |-> "resize", n |-> n, ac |-> a] : n \in Sizes(D), a \in AcArgs}
     \cup {[op |-> "resample", h |-> h, min |-> 1] : h \in Hs(D)}
@@ -25,4 +26,5 @@ IOpsOf(D) ==
     \cup {[op |-> "narrow", dim |-> d, start |-> 1, len |-> 2] : d \in 0..(D - 1)}
     \cup {[op |-> "roi", start |-> r[1], n |-> r[2]] : r \in Rois(D)}
     \cup {[op |-> "pool", k |-> k, ceil |-> cm] : k \in {2, 3}, cm \in BOOLEAN}
+    \cup {[op |-> "conv", r |-> r, valid |-> v] : r \in ConvReach(D), v \in BOOLEAN}
 =============================================================================
